@@ -91,6 +91,24 @@ Proof.
   unfold int64. lia.
 Qed.
 
+Lemma i64_min : int64 min64. Proof. unfold int64, min64, max64; lia. Qed.
+Lemma i64_max : int64 max64. Proof. unfold int64, min64, max64; lia. Qed.
+
+Lemma plus_cmax off : int64 off -> int64 (fy (cos (MX + off))) ->
+  plus64 0 civil_max64 off = OK (cos (MX + off)).
+Proof.
+  intros Io IY.
+  pose proof (plus_refines_lemma 0 civil_max64 off ltac:(lia) valid_cmax (align0 _) i64_max Io) as P.
+  rewrite ord0, oford0 in P. exact (P IY).
+Qed.
+Lemma plus_cmin off : int64 off -> int64 (fy (cos (MN + off))) ->
+  plus64 0 civil_min64 off = OK (cos (MN + off)).
+Proof.
+  intros Io IY.
+  pose proof (plus_refines_lemma 0 civil_min64 off ltac:(lia) valid_cmin (align0 _) i64_min Io) as P.
+  rewrite ord0, oford0 in P. exact (P IY).
+Qed.
+
 (* ================================================================== *)
 (* The tail of parse_finish, from the civil_second constructor on      *)
 
@@ -116,9 +134,6 @@ Definition finish_tail (ptz : zone) (year month mday hh mi ss offset subsec : Z)
            (do '(al, _) <- break_time ptz 0 min64 ;; OK (lt64 cs' (al_cs al)))
          else OK false) ;;
       if over || under then OK None else OK (Some (tp, subsec)).
-
-Lemma i64_min : int64 min64. Proof. unfold int64, min64, max64; lia. Qed.
-Lemma i64_max : int64 max64. Proof. unfold int64, min64, max64; lia. Qed.
 
 Lemma finish_tail_correct utc y m d hh mm ss off sub :
   reset_to_builtin_utc 0 = OK utc ->
@@ -166,8 +181,7 @@ Proof.
      (g = false -> int64 (fy (cos (Lc - off))))).
   { destruct (Z.ltb_spec off 0) as [O1|O1].
     - assert (int64 (fy (cos (MX + off)))) as IY by (apply year_between; lia).
-      pose proof (plus_refines_lemma 0 civil_max64 off ltac:(lia) valid_cmax (align0 _) i64_max Io) as P.
-      rewrite ord0, oford0 in P. fold MX in P. rewrite (P IY). cbn [bind].
+      rewrite (plus_cmax off Io IY). cbn [bind].
       rewrite lt_r by exact Vf. fold Lc.
       eexists; split; [reflexivity|]. split; intros Hg.
       + apply Z.ltb_lt in Hg. unfold in64. lia.
@@ -178,8 +192,7 @@ Proof.
         unfold int64 in *. lia.
     - destruct (Z.ltb_spec 0 off) as [O2|O2].
       + assert (int64 (fy (cos (MN + off)))) as IY by (apply year_between; lia).
-        pose proof (plus_refines_lemma 0 civil_min64 off ltac:(lia) valid_cmin (align0 _) i64_min Io) as P.
-        rewrite ord0, oford0 in P. fold MN in P. rewrite (P IY). cbn [bind].
+        rewrite (plus_cmin off Io IY). cbn [bind].
         rewrite lt_l by exact Vf. fold Lc.
         eexists; split; [reflexivity|]. split; intros Hg.
         * apply Z.ltb_lt in Hg. unfold in64. lia.
